@@ -707,6 +707,7 @@ func init() {
 		BudgetIsViolation: true,
 		QuickRuns:         6000,
 		ThoroughRuns:      120000,
+		RaceCompanion:     "C17R",
 		Rule: "a Lua script drawn from a grammar (any subset of the five handlers; MAIL/RCPT handlers of the form 'if <condition on this session's sender / current " +
 			"recipient / recipient count> then A else B' with A,B in allow, deny(), deny(code), deny(code, text echoing the session's own sender / recipient / count), " +
 			"defer, nil, nothing, 11 wrong-typed values, 7 ways of raising an error, optionally after writing to the session object; before.message_stored returning " +
@@ -731,6 +732,31 @@ func init() {
 				"the data-race clause needs race mode and is not decided by this check",
 			"scripts do not use Lua globals to carry state between invocations (pooled states make that unspecified), nor the http/channel modules",
 		},
+	})
+}
+
+func init() {
+	register(&Prop{
+		ID:    "C17R",
+		Level: "exploration",
+		Gen: func(w *simrt.Choices, tier string, avoid map[string]bool) Case {
+			return genC17(w, tier, avoid)
+		},
+		Run: runC17,
+		Config: func(cs Case) simrt.Config {
+			return simrt.Config{NoJumps: true, MaxSteps: 400000, MaxSimTime: 6 * time.Hour}
+		},
+		RaceMode:     true,
+		RaceStackPkg: "extension/luahost",
+		QuickRuns:    1500,
+		ThoroughRuns: 30000,
+		Rule: "race-mode companion of C17 (\"handlers invoked from many sessions at once never corrupt each other's state\"): the same generated scripts and " +
+			"concurrent SMTP sessions in a -race binary. Lua code has no scheduling point, so two sessions never interleave inside a handler in the simulation; " +
+			"ThreadSanitizer decides by happens-before instead: the simulator's hand-off is hidden from it, Inbucket's own synchronisation (the state pool's " +
+			"channel/mutex, broker locks) is published, and a report whose two access stacks both pass through pkg/extension/luahost means two sessions used the " +
+			"same Lua state (or other luahost data) with nothing in Inbucket ordering them",
+		Real: []string{"pkg/extension/luahost", "gopher-lua", "pkg/extension", "pkg/server/smtp", "pkg/storage/mem"},
+		Stub: []string{"TCP (simnet)", "scheduler", "sync (edges published to ThreadSanitizer)", "clock"},
 	})
 }
 
